@@ -13,6 +13,12 @@ pub fn utf8_model(v: &[u8]) -> Result<&str, core::str::Utf8Error> {
     }
 }
 
+/// Stub for harnesses whose string bytes are concrete ASCII and long (128-byte property sections): accepts without
+/// looking at the bytes. UTF-8 validation is outside the claim of those harnesses (stated in their bounds).
+pub fn utf8_trusting(v: &[u8]) -> Result<&str, core::str::Utf8Error> {
+    Ok(unsafe { core::str::from_utf8_unchecked(v) })
+}
+
 pub fn utf8_ok(v: &[u8]) -> bool {
     let mut i = 0usize;
     let n = v.len();
